@@ -526,7 +526,7 @@ def run_property(ctx, prop, monitor, gen_kwargs, n_quick, n_thorough, replay=Non
     else:
         g = pfcp.Gen(rnd, **gen_kwargs)
         n = n_quick if ctx.tier == "quick" else n_thorough
-        cases = corpus_cases(prop) + (directed(rnd) if directed else []) + [g.history() for _ in range(n)]
+        cases = corpus_cases(prop) + pfcp.directed(rnd) + (directed(rnd) if directed else []) + [g.history() for _ in range(n)]
     r = pfcp.run_cases(ctx, info["harness"], cases)
     if "error" in r and "impl" not in r:
         ctx.violation({"property": prop, "broken": r["error"]}, no_input=True)
